@@ -1,6 +1,121 @@
+(** * Props/C13.v — Rebasing a v2 transaction set yields proofs valid at the target index.
+    Only the property theorems; each is closed by [exact] and followed by Print Assumptions.
+    All statements are about the model of updateV2TransactionProofs / reorgPath /
+    V2TransactionSet in [Chain/Rebase.v] (the repaired code) that the harness validates
+    against the real chain.Manager.  [U] is any block universe (what the store knows about
+    each block id: header, state, body with supplement; the v2 transactions it confirms; the
+    elements it creates with their leaf indices; its leaf count); [sane U]: created leaf
+    indices are not the ephemeral sentinel.  That the caller's input is not modified where
+    the API promises so (AddV2PoolTransactions, V2TransactionSet) is a fact about Go memory
+    and is checked by the harness monitors only: partial. *)
 From Coq Require Import NArith List.
 From stdpp Require Import gmap.
-From CV Require Import Chain.Pool Chain.PoolProofs Chain.Rebase.
-Theorem C13_placeholder : ∀ L mw p, is_Some (ms (revalidate L mw p)).
-Proof. exact revalidate_ms. Qed.
-Print Assumptions C13_placeholder.
+From CV Require Import Chain.Pool Chain.PoolProofs Chain.Rebase Chain.RebaseProofs.
+Import ListNotations.
+Open Scope N_scope.
+
+(** A successful rebase: the basis is known, every proof verified against it, the path
+    [rev]/[app] between the two indices was found and has at most 144 blocks (145 only through
+    the unreachable "from genesis" branch), every block on it has its body and supplement, and
+    every non-ephemeral element is a leaf of the accumulator before each reverted block.  The
+    result is [spec_apply]: the transactions not confirmed by an applied block, in their
+    order, each input unchanged (leaf indices of existing elements never move; the proof is
+    moved) except that an ephemeral siacoin/siafund input whose element an applied block
+    creates takes that element's leaf ([conv_confirmed_cases]); and every non-ephemeral
+    input of the result is a leaf of the target accumulator. *)
+Theorem C13_rebase_ok_spec :
+  ∀ U gen txs from to out,
+    sane U → update_proofs U gen txs from to = ROk out →
+    ∃ rev app,
+      reorg_path U gen max_rebase from to = inr (rev, app) ∧
+      (length rev + length app ≤ S max_rebase)%nat ∧
+      (∃ fb, U !! from.2 = Some fb ∧ b_st fb = true) ∧
+      Forall (λ t, elements_valid t = true) txs ∧
+      (∀ ix, ix ∈ rev → ∃ b pnum, block_and_parent U ix.2 = Some (b, pnum) ∧
+                          Forall (λ t, keep_tx pnum t = true) txs) ∧
+      (∀ ix, ix ∈ app → ∃ b pnum, block_and_parent U ix.2 = Some (b, pnum)) ∧
+      out = spec_apply U app txs ∧
+      map a_id out = List.filter (λ id, negb (bool_decide (id ∈ confirmed_on U app))) (map a_id txs) ∧
+      (∀ b, (∃ ix, last app = Some ix ∧ U !! ix.2 = Some b) → Forall (λ t, keep_tx (b_num b) t = true) out).
+Proof. exact rebase_ok_spec. Qed.
+Print Assumptions C13_rebase_ok_spec.
+
+(** what [spec_apply] does to one input *)
+Theorem C13_rebase_input_cases :
+  ∀ cr i,
+    (is_eph i = false → conv_confirmed cr i = i) ∧
+    (cr !! i_el i = None → conv_confirmed cr i = i) ∧
+    (∀ lf, is_spend i = true → cls (i_el i) < 2 → is_eph i = true → cr !! i_el i = Some lf →
+           conv_confirmed cr i = set_leaf i lf true).
+Proof. exact conv_confirmed_cases. Qed.
+Print Assumptions C13_rebase_input_cases.
+
+(** Errors: an unknown basis, a proof that does not verify against the basis, and a path that
+    cannot be determined (longer than the bound, or through an unknown header) are rejected
+    with the corresponding error; a result is only returned for a path within the bound; and
+    the function is total: it returns a result or an error, there is no stuck state. *)
+Theorem C13_rebase_errors :
+  ∀ U gen txs from to,
+    ((U !! from.2 = None ∨ ∃ fb, U !! from.2 = Some fb ∧ b_st fb = false) →
+       update_proofs U gen txs from to = RErr EBasis) ∧
+    ((∃ fb, U !! from.2 = Some fb ∧ b_st fb = true) → (∃ t, t ∈ txs ∧ elements_valid t = false) →
+       update_proofs U gen txs from to = RErr EProof) ∧
+    (∀ e, (∃ fb, U !! from.2 = Some fb ∧ b_st fb = true) → Forall (λ t, elements_valid t = true) txs →
+       reorg_path U gen max_rebase from to = inl e → update_proofs U gen txs from to = RErr e) ∧
+    (∀ out, update_proofs U gen txs from to = ROk out →
+       ∃ rev app, reorg_path U gen max_rebase from to = inr (rev, app) ∧
+                  (length rev + length app ≤ S max_rebase)%nat) ∧
+    ((∃ l, update_proofs U gen txs from to = ROk l) ∨ (∃ e, update_proofs U gen txs from to = RErr e)).
+Proof. exact rebase_errors. Qed.
+Print Assumptions C13_rebase_errors.
+
+(** The boundary on a line of 160 blocks (cf. the repository's TestReorgPathMaxLen): 144
+    blocks forwards or backwards are rebased, 145 are refused, an unknown basis is refused. *)
+Theorem C13_rebase_boundary :
+  update_proofs (lin 160) (0, 1) [] (2, 3) (146, 147) = ROk [] ∧
+  update_proofs (lin 160) (0, 1) [] (2, 3) (147, 148) = RErr ETooLong ∧
+  update_proofs (lin 160) (0, 1) [] (146, 147) (2, 3) = ROk [] ∧
+  update_proofs (lin 160) (0, 1) [] (147, 148) (2, 3) = RErr ETooLong ∧
+  update_proofs (lin 160) (0, 1) [] (2, 999) (5, 6) = RErr EBasis.
+Proof. exact rebase_boundary. Qed.
+Print Assumptions C13_rebase_boundary.
+
+(** V2TransactionSet never panics; when it succeeds the basis is the tip and the set is the
+    pooled ancestors followed by the caller's transaction rebased to the tip.  The ancestors
+    are a sub-sequence of V2PoolTransactions in pool order — which is dependency order by
+    C05_reported_pool_prefix_valid, so every parent comes before its children — and are
+    closed: the pooled creator (per the output map) of every input of the transaction and of
+    every returned parent is itself returned. *)
+Theorem C13_set_parents_first_and_basis_is_tip :
+  ∀ U gen L mw tip p basis t,
+    v2_transaction_set U gen L mw tip p basis t ≠ SPanic ∧
+    ∀ b l, v2_transaction_set U gen L mw tip p basis t = SOk b l →
+      b = tip ∧
+      ∃ parents l',
+        l = parents ++ l' ∧ update_proofs U gen [t] basis tip = ROk l' ∧
+        sublist parents (v2_pool_transactions L mw p) ∧
+        ∀ u, u ∈ parents ∨ u = t → ∀ i ix, i ∈ a_ins u → is_ref i = false →
+          parent_map (v2_pool_transactions L mw p) !! i_el i = Some ix →
+          ∃ q, v2_pool_transactions L mw p !! ix = Some q ∧ q ∈ parents.
+Proof. exact set_parents_first_and_basis_is_tip. Qed.
+Print Assumptions C13_set_parents_first_and_basis_is_tip.
+
+(** Finding F9 in the rebase, kept about the code before the repair: a [parent; child] set
+    rebased across one unrelated block was refused ("references element that does not exist");
+    the repaired function returns it. *)
+Theorem C13_ephemeral_prefix_refuted :
+  update_proofs_prefix exRU (0, 1) [tB; tC] (0, 1) (1, 2) = RErr EGone ∧
+  update_proofs exRU (0, 1) [tB; tC] (0, 1) (1, 2) = ROk [tB; tC].
+Proof. exact rebase_prefix_refuted. Qed.
+Print Assumptions C13_ephemeral_prefix_refuted.
+
+(** Findings F20 and F17, kept about the parent discovery before the repairs: the reversed
+    breadth-first order returns a descendant before its ancestor; the shared position map
+    indexes the v2 slice with the position of a v1 transaction (panic). *)
+Theorem C13_parents_prefix_refuted :
+  unconfirmed_parents_prefix (parent_map [tP; tQ]) [tP; tQ] tR = PList [tQ; tP] ∧
+  unconfirmed_parents (parent_map [tP; tQ]) [tP; tQ] tR = PList [tP; tQ] ∧
+  unconfirmed_parents_prefix (parent_map_prefix [tA; tA] []) []
+    (ATx 11 true [AIn 100 RSpend unassigned true 0] [] 1 10 0 100 false) = PPanic.
+Proof. exact parents_prefix_refuted. Qed.
+Print Assumptions C13_parents_prefix_refuted.
